@@ -10,6 +10,7 @@ func init() {
 	vxRegister("H01cQ", H01cQ)
 	vxRegister("H01cT", H01cT)
 	vxRegister("H01b", H01b)
+	vxRegister("H01x", H01x)
 	vxRegister("H01sameline", H01sameline)
 }
 
@@ -111,16 +112,44 @@ func H01aT() { h01a(true) }
 // [0.7,1.0] - the threshold is a symbolic float64.
 func h01a(thorough bool) {
 	t := vxFloat64(0.7, 1.0)
-	world, a, b, pat := []int{1}, 1, 1, 0
+	worlds := [][]int{{1}, {8}, {9}, {0, 1}} // 8 words; 3 and 4 words (exactly the minimum run length near 0.8); prefix pair
 	if thorough {
-		world = [][]int{{0}, {1}, {0, 1}, {8}, {9}}[vxChoice(5)]
-		a, pat = vxChoice(2)+1, vxChoice(2)
-	} else {
-		world = [][]int{{1}, {8}}[vxChoice(2)] // 8 words; 3 words (exactly the minimum run length below 0.8)
+		worlds = append(worlds, []int{0}, []int{2, 3}, []int{7}, []int{5, 1}, []int{8, 9})
 	}
+	world := worlds[vxChoice(len(worlds))]
 	c := vxBuildWorld(t, world...)
-	k := world[vxChoice(len(world))]
-	in, plants := vxPlantLayout([]int{k}, []int{a, b}, pat, true)
+	ncopies := 1
+	if thorough {
+		ncopies = vxChoice(2) + 1
+	}
+	ks := make([]int, ncopies)
+	gaps := make([]int, ncopies+1)
+	for i := range ks {
+		ks[i] = world[vxChoice(len(world))]
+	}
+	for i := range gaps {
+		gaps[i] = vxChoice(2) + 1
+	}
+	pat := vxChoice(2)
+	if thorough {
+		pat = vxChoice(4)
+	}
+	in, plants := vxPlantLayout(ks, gaps, pat, true)
+	r := c.Match(in)
+	vxCheckPlants(c, r, plants)
+	for _, m := range r.Matches {
+		vxAssert("conf-at-least-threshold", m.Confidence >= t)
+	}
+	vxCover("end")
+}
+
+// H01x: a two-layout instance of h01a, run with GOSX_FPCHECK=1 in the thorough tier: every verdict
+// of the floating-point pre-filter is confirmed by cvc5.
+func H01x() {
+	t := vxFloat64(0.7, 1.0)
+	world := [][]int{{1}, {8}}[vxChoice(2)]
+	c := vxBuildWorld(t, world...)
+	in, plants := vxPlantLayout([]int{world[0]}, []int{1, 1}, 0, true)
 	r := c.Match(in)
 	vxCheckPlants(c, r, plants)
 	for _, m := range r.Matches {
